@@ -434,6 +434,7 @@ impl StaticFile {
                     existing_statics
                         .iter()
                         .find(|(n, _v)| *n == &rname)
+                        .filter(|(_n, v)| published_as(&name, v))
                         .map(|(_n, v)| {
                             CssString::new(v.into(), Quotes::Double).into()
                         })
@@ -528,6 +529,28 @@ impl Drop for StaticFiles {
         // Ignore a possible write failure, rather than a panic in drop.
         let _ = do_write(self);
     }
+}
+
+/// Is `url_name` what a file called `name` is published as?
+///
+/// That is either `name` itself (as given to `add_file_as`) or
+/// `stem-hash.ext` where `stem.ext` is `name` and the hash is eight
+/// characters.  Different file names may share a rust identifier
+/// (`a.b.css` and `a_b.css`), so finding an entry by identifier is
+/// not enough to know it is the file that was asked for.
+#[cfg(feature = "sass")]
+fn published_as(name: &str, url_name: &str) -> bool {
+    if url_name == name {
+        return true;
+    }
+    name_and_ext(Path::new(name)).map_or(false, |(stem, ext)| {
+        url_name
+            .strip_prefix(stem)
+            .and_then(|rest| rest.strip_prefix('-'))
+            .and_then(|rest| rest.strip_suffix(ext))
+            .and_then(|rest| rest.strip_suffix('.'))
+            .map_or(false, |hash| hash.len() == 8)
+    })
 }
 
 /// The rust identifier used for a static file with a given name.
